@@ -32,17 +32,6 @@ func (a Aff) String() string {
 
 func (a Aff) plus(k int64) Aff { a.K += k; return a }
 
-// affEq: same base and offset.
-func affEq(info *types.Info, a, b Aff) bool {
-	if !a.ok || !b.ok || a.K != b.K {
-		return false
-	}
-	if a.Of == nil || b.Of == nil {
-		return a.Of == nil && b.Of == nil
-	}
-	return sameExpr(info, a.Of, b.Of)
-}
-
 // fnScope gathers per-function facts needed to resolve local aliases.
 type fnScope struct {
 	info *types.Info
@@ -381,14 +370,6 @@ func (s *fnScope) writtenIn(obj types.Object, n ast.Node) bool {
 		return !w
 	})
 	return w
-}
-
-// fullRange: the loop visits every index of collection x: [0, len(x)).
-func (s *fnScope) fullRange(l *Loop, x ast.Expr) bool {
-	if l == nil {
-		return false
-	}
-	return l.Lo.ok && l.Lo.Of == nil && l.Lo.K == 0 && l.Hi.ok && l.Hi.K == 0 && l.Hi.Of != nil && sameExpr(s.info, l.Hi.Of, s.canon(x))
 }
 
 // idxOffset: if e is `i + c` for the loop index i, returns c.
